@@ -852,7 +852,6 @@ static bool do_save(StringDictionary *d, std::string &img) {
 }
 static StringDictionary *do_load(const Case &c, const std::string &img, bool own) {
   const char *opn = own ? "load_own" : "load_generic";
-  if (!own && c.p.kind == K_BLOCKS) return nullptr;  // the generic dispatcher does not know tag 125 (DESIGN 4/C06)
   if (cur->skip(opn)) return nullptr;
   StringDictionary *d = nullptr;
   obj_dead = false;
@@ -891,7 +890,7 @@ static void for_states(const Case &c, const std::function<void(Obj &)> &f, bool 
     if (d2) { saved = do_save(d2, img); do_destroy(d2); }
   }
   if (!saved) return;
-  if (gen && c.p.kind != K_BLOCKS) {
+  if (gen) {
     cur->state = "gen";
     StringDictionary *g = do_load(c, img, false);
     if (g) { Obj og{g, c.p.kind, c.S.size()}; f(og); cur->state = "gen"; do_destroy(g); }
@@ -997,7 +996,6 @@ static void run_c06(const Case &c, XorShift &x) {
   if (!saved) { attr_override.clear(); return; }
   cur->counters["image_bytes"] = (int)std::min<size_t>(img.size(), 1 << 30);
   for (int own = 0; own < 2; own++) {
-    if (!own && c.p.kind == K_BLOCKS) continue;
     cur->state = own ? "own" : "gen";
     StringDictionary *l = do_load(c, img, own);
     if (!l) continue;
@@ -1084,7 +1082,7 @@ static void run_c06(const Case &c, XorShift &x) {
       }
       // the generic loader on the second image of the same stream: it selects the kind from the tag at the
       // current position and consumes exactly that image
-      if (c.p.kind != K_BLOCKS && !cur->skip("load_generic") && !obj_dead) {
+      if (!cur->skip("load_generic") && !obj_dead) {
         std::istringstream is2(stream, std::ios::in | std::ios::binary);
         is2.seekg((std::streamoff)img.size());
         StringDictionary *g2 = nullptr;
@@ -1164,7 +1162,6 @@ static void run_c08(const Case &c, XorShift &x) {
   // loaded object: save again
   if (ok) {
     for (int own = 0; own < 2; own++) {
-      if (!own && c.p.kind == K_BLOCKS) continue;
       cur->state = own ? "own" : "gen";
       StringDictionary *l = do_load(c, img1, own);
       if (!l) continue;
@@ -1517,7 +1514,7 @@ static void run_c14(const Case &c, XorShift &x) {
     } else first_answer[qi] = a;
     // pristine twin: freshly loaded, asked only this query
     if (saved && x.below(3) == 0) {
-      bool own = c.p.kind == K_BLOCKS ? true : x.below(2);
+      bool own = x.below(2);
       cur->state = own ? "own" : "gen";
       bool dead_before = obj_dead;
       StringDictionary *t = do_load(c, img, own);
